@@ -35,6 +35,8 @@ func (p params) name() string {
 		return fmt.Sprintf("store-seq/depth%d/nopayload%v", p.Depth, p.NoPayload)
 	case "store-conc":
 		return fmt.Sprintf("store-conc/%v/nopayload%v", p.Ops, p.NoPayload)
+	case "options":
+		return fmt.Sprintf("options/first-%s/P%d", p.Close, p.P)
 	}
 	if p.Refuse != "" {
 		return fmt.Sprintf("conn/close-%s/refuse-%s/F%d/P%d", p.Close, p.Refuse, p.F, p.P)
@@ -152,12 +154,18 @@ func scenarios(tier string) []vlib.Scenario {
 		add(params{Kind: "conn", Close: cl, F: 1})
 	}
 	add(params{Kind: "conn", Close: "none", F: 0, P: 1})
+	// the options of one stream do not leak into a stream opened without them (before or after)
+	add(params{Kind: "options", Close: "tuned"})
+	add(params{Kind: "options", Close: "plain"})
 	// a refused resume of one stream (response without alias) must not disturb the stream that holds alias 0
 	add(params{Kind: "conn", Close: "none", Refuse: "upU", F: 1})
 	add(params{Kind: "conn", Close: "none", Refuse: "upR", F: 1})
 	// the resume of one stream stays unanswered and the application closes that stream meanwhile
 	add(params{Kind: "conn", Close: "upU", Refuse: "unanswered:upU", F: 1})
 	add(params{Kind: "conn", Close: "upR", Refuse: "unanswered:upR", F: 1})
+	// ... or does nothing about it: the other streams resume and work all the same
+	add(params{Kind: "conn", Close: "none", Refuse: "unanswered:upU", F: 1})
+	add(params{Kind: "conn", Close: "none", Refuse: "unanswered:upR", F: 1})
 	if tier == "thorough" {
 		for _, cl := range []string{"none", "upR", "upU", "down"} {
 			add(params{Kind: "conn", Close: cl, F: 2})
@@ -183,6 +191,9 @@ func config(sc vlib.Scenario, tier string) vsched.Config {
 }
 
 type world struct {
+	optCloseErr    error
+	optCloseDur    time.Duration
+	optAcksAtClose int
 	afterOpen string
 	kit.World
 	p       params
@@ -425,6 +436,9 @@ func (w *world) connMain() {
 		if (u.Name == "upR" && w.p.Close == "upR") || (u.Name == "upU" && w.p.Close == "upU") || kit.ReportedClosed(u.Closed) {
 			continue
 		}
+		if strings.HasPrefix(w.p.Refuse, "unanswered:") && strings.HasSuffix(w.p.Refuse, u.Name) && w.cuts > 0 {
+			continue // this stream's own resume is never answered
+		}
 		tag := "after-" + u.Name
 		actx, acancel := kit.Ctx(10 * time.Second)
 		err := u.Write(actx, kit.IDA, tag)
@@ -573,12 +587,65 @@ func (w *world) connOracle(res *vsched.Result, v *vlib.Verdict) {
 	v.Outcome = fmt.Sprintf("close=%s/%s cuts=%d after=%v down=%v mis=%d", w.p.Close, w.closeRes, w.cuts, w.afterWrites, w.downRead, w.misaddressed)
 }
 
+// optionsMain: stream "tuned" is opened with a 50 ms close timeout and a 300 ms ack timeout, stream "plain" with the
+// defaults (order: parameter). The broker acknowledges plain's chunk after 2 s: plain's Close has to wait for it.
+func (w *world) optionsMain() {
+	s := &sim.Script{AckDelay: 2 * time.Second}
+	s.AckChunk = func(c *sim.BConn, u *sim.UpStream, ch *sim.ChunkRec) sim.AckMode { return sim.AckDelay }
+	if err := w.Connect(s); err != nil {
+		return
+	}
+	ctx, cancel := kit.Ctx(30 * time.Second)
+	defer cancel()
+	var plain *kit.Up
+	open := func(which string) {
+		if which == "tuned" {
+			w.OpenUp(ctx, "tuned", iscp.WithUpstreamFlushPolicyNone(), iscp.WithUpstreamQoS(message.QoSReliable), iscp.WithUpstreamCloseTimeout(50*time.Millisecond), iscp.WithUpstreamAckTimeout(300*time.Millisecond))
+		} else {
+			plain, _ = w.OpenUp(ctx, "plain", iscp.WithUpstreamFlushPolicyNone(), iscp.WithUpstreamQoS(message.QoSReliable))
+		}
+	}
+	if w.p.Close == "tuned" {
+		open("tuned")
+		open("plain")
+	} else {
+		open("plain")
+		open("tuned")
+	}
+	if plain == nil || len(w.Ups) != 2 {
+		w.Phase = "setup-failed"
+		return
+	}
+	w.Phase = "traffic"
+	plain.Write(ctx, kit.IDA, "p1")
+	plain.U.Flush(ctx)
+	t0 := vsched.Now()
+	cctx, ccancel := kit.Ctx(8 * time.Second)
+	w.optCloseErr = plain.U.Close(cctx)
+	ccancel()
+	w.optCloseDur = vsched.Now() - t0
+	w.optAcksAtClose = len(plain.AckHook)
+	w.Phase = "closing"
+	for _, u := range w.Ups {
+		xctx, xcancel := kit.Ctx(3 * time.Second)
+		u.U.Close(xctx)
+		xcancel()
+	}
+	yctx, ycancel := kit.Ctx(5 * time.Second)
+	w.Conn.Close(yctx)
+	ycancel()
+	w.B.Stop()
+	w.Phase = "done"
+}
+
 func (w *world) main() {
 	switch w.p.Kind {
 	case "store-seq":
 		w.storeSeq()
 	case "store-conc":
 		w.storeConc()
+	case "options":
+		w.optionsMain()
 	default:
 		w.connMain()
 	}
@@ -593,6 +660,19 @@ func run(sc vlib.Scenario, cfg vsched.Config) (*vsched.Result, vlib.Verdict) {
 		return res, v
 	}
 	switch w.p.Kind {
+	case "options":
+		if w.ConnErr != nil || w.Phase == "setup-failed" {
+			v.Inconclusive = "setup failed"
+			return res, v
+		}
+		if res.Outcome != vsched.Completed {
+			v.Fail("C07.blocked", "options/"+w.Phase, "the options scenario never finished (phase %s)", w.Phase)
+			return res, v
+		}
+		if w.optCloseDur < 2*time.Second-10*time.Millisecond || w.optAcksAtClose != 1 {
+			v.Fail("C07.options", fmt.Sprintf("close-of-plain-stream/first=%s/acks=%d", w.p.Close, w.optAcksAtClose), "the stream opened without options was closed after %v with %d of 1 results reported (error %v): its acknowledgement arrives after 2 s and the default close timeout is 10 s - the other stream's 50 ms close timeout / 300 ms ack timeout leaked into it", w.optCloseDur, w.optAcksAtClose, w.optCloseErr)
+		}
+		v.Outcome = fmt.Sprintf("close=%v dur=%v acks=%d", kit.ErrKind(w.optCloseErr), w.optCloseDur, w.optAcksAtClose)
 	case "store-seq":
 		for _, s := range w.seqViol {
 			v.Fail("C07.store-isolation", fmt.Sprintf("nopayload=%v", w.p.NoPayload), "%s", s)
